@@ -9,12 +9,13 @@ import (
 
 type floatDecoder struct {
 	op         func(unsafe.Pointer, float64)
+	bitSize    int // 32: the text is rounded to float32 directly and must be in its range
 	structName string
 	fieldName  string
 }
 
 func newFloatDecoder(structName, fieldName string, op func(unsafe.Pointer, float64)) *floatDecoder {
-	return &floatDecoder{op: op, structName: structName, fieldName: fieldName}
+	return &floatDecoder{op: op, bitSize: 64, structName: structName, fieldName: fieldName}
 }
 
 var (
@@ -130,7 +131,7 @@ func (d *floatDecoder) DecodeStream(s *Stream, depth int64, p unsafe.Pointer) er
 		return errors.ErrSyntax(invalidNumberMessage(bytes), s.totalOffset())
 	}
 	str := *(*string)(unsafe.Pointer(&bytes))
-	f64, err := strconv.ParseFloat(str, 64)
+	f64, err := strconv.ParseFloat(str, d.bitSize)
 	if err != nil {
 		return errors.ErrSyntax(err.Error(), s.totalOffset())
 	}
@@ -155,7 +156,7 @@ func (d *floatDecoder) Decode(ctx *RuntimeContext, cursor, depth int64, p unsafe
 		return 0, errors.ErrSyntax(invalidNumberMessage(bytes), cursor)
 	}
 	s := *(*string)(unsafe.Pointer(&bytes))
-	f64, err := strconv.ParseFloat(s, 64)
+	f64, err := strconv.ParseFloat(s, d.bitSize)
 	if err != nil {
 		return 0, errors.ErrSyntax(err.Error(), cursor)
 	}
